@@ -608,8 +608,9 @@ pub(crate) fn tokenize_file(ctx: &mut StaticsContext, file_id: FileId) -> Vec<To
                 lexer.index += 2;
             }
             _ => {
-                ctx.errors
-                    .push(Error::UnrecognizedToken(file_id, lexer.index));
+                // diagnostics count in bytes of the source
+                let offset = lexer.byte_offset(lexer.index);
+                ctx.errors.push(Error::UnrecognizedToken(file_id, offset));
                 lexer.index += 1;
             }
         }
